@@ -193,21 +193,53 @@ Lemma identity_one_glyph_per_character_pf : forall cm o gdef s,
   forall i r, nth_error s i = Some r ->
     exists g, nth_error (S_identity cm o gdef s) i = Some g /\
       g_gid g = cmap_lookup cm r /\ g_text g = [r] /\ g_xoff g = 0%Z /\ g_yoff g = 0%Z /\
+      (num_glyphs o <= cmap_lookup cm r -> g_adv g = 0%Z) /\
       (is_mark gdef (cmap_lookup cm r) = true -> g_adv g = 0%Z) /\
-      (is_mark gdef (cmap_lookup cm r) = false ->
+      (cmap_lookup cm r < num_glyphs o -> is_mark gdef (cmap_lookup cm r) = false ->
          forall w, glyph_width o (cmap_lookup cm r) = Ok w -> g_adv g = w).
 Proof.
   intros cm o gdef s. unfold S_identity. split; [apply map_length|].
   intros i r Hr. rewrite nth_error_map, Hr. cbn [option_map]. eexists. split; [reflexivity|].
   unfold S_identity_glyph, S_advance. cbn [g_gid g_text g_xoff g_yoff g_adv].
-  repeat (split; [reflexivity|]). split.
-  - intros ->. reflexivity.
-  - intros -> w ->. reflexivity.
+  repeat (split; [reflexivity|]). split; [|split].
+  - intros H. apply N.leb_le in H. rewrite H. reflexivity.
+  - intros ->. destruct (num_glyphs o <=? cmap_lookup cm r); reflexivity.
+  - intros H -> w ->. apply N.leb_gt in H. rewrite H. reflexivity.
+Qed.
+
+(* with one width per glyph (what sfnt.Read delivers) every glyph id has an
+   advance: the width loop cannot panic, whatever the cmap or the
+   substitutions produce *)
+Lemma S_advance_consistent o gdef gid : outlines_consistent o -> S_advance o gdef gid <> None.
+Proof.
+  intros Hc. unfold S_advance. destruct (N.leb_spec (num_glyphs o) gid) as [Hge|Hlt]; [discriminate|].
+  destruct (is_mark gdef gid); [discriminate|]. unfold glyph_width.
+  destruct o as [n [w|]|w]; cbn [outlines_consistent num_glyphs] in *; try discriminate.
+  - subst n. destruct (nth_error w (N.to_nat gid)) eqn:E; [discriminate|].
+    apply nth_error_None in E. lia.
+  - destruct (nth_error w (N.to_nat gid)) eqn:E; [discriminate|].
+    apply nth_error_None in E. lia.
+Qed.
+
+Lemma glyphs_exist_consistent_pf cm o gdef s : outlines_consistent o -> glyphs_exist cm o gdef s.
+Proof. intros Hc r _. apply S_advance_consistent. exact Hc. Qed.
+
+Lemma layout_with_total {tag} (f : font tag) gs gp s : outlines_consistent (f_outlines f) ->
+  exists out, layout_with f gs gp s = Ok out /\ text_of out = s /\ (length out <= length s)%nat.
+Proof.
+  intros Hc. destruct (layout_with_outcome f gs gp s) as [Hp|H]; [|exact H]. exfalso.
+  unfold layout_with in Hp.
+  destruct (apply_table_spec (f_gsub f) gs (map (fun r => mkG (cmap_lookup (f_cmap f) r) [r] 0 0 0) s))
+    as (s1 & E1 & _). rewrite E1 in Hp. cbn [obind] in Hp.
+  rewrite set_widths_ok in Hp by (intros g _; apply S_advance_consistent; exact Hc). cbn [obind] in Hp.
+  destruct (apply_table_spec (f_gpos f) gp (map (set_width_of (f_outlines f) (f_gdef f)) s1)) as (out & E3 & _).
+  rewrite E3 in Hp. discriminate.
 Qed.
 
 (* With no applicable rule (every selected lookup leaves the sequence alone)
-   Layout returns exactly that; it panics iff a character maps to a glyph the
-   font does not have. *)
+   Layout returns exactly that (a glyph id the font does not have keeps
+   advance 0); it panics iff a character maps to a glyph below NumGlyphs
+   without an entry in the width slice (never for consistent outlines). *)
 Lemma layout_no_rule_identity_pf :
   forall (lang : Type) (matcher : lang -> list tagT -> nat) iter1 iter2
          (f : font tagT) (l : lang) gsw psw s gs gp,
